@@ -25,7 +25,7 @@ def _float(x):
     return ("f", struct.pack("<d", x))
 
 
-def snapshot(obj, rng=True, skip=(), _memo=None, _depth=0):
+def snapshot(obj, rng=True, skip=(), _memo=None, _depth=0, _ordered=False):
     """skip: attribute names left out wherever they occur (observation-only caches)."""
     if _memo is None:
         _memo = {}
@@ -61,7 +61,9 @@ def snapshot(obj, rng=True, skip=(), _memo=None, _depth=0):
             if isinstance(obj, collections.defaultdict) and _is_empty(v):
                 continue            # created by a look-up, unobservable
             items.append((snapshot(k, rng, skip, _memo, _depth + 1), snapshot(v, rng, skip, _memo, _depth + 1)))
-        return ("dict",) + tuple(items)                      # order matters (arm order)
+        if not _ordered:
+            items.sort(key=repr)      # only per-arm maps (attributes named arm_to_*) have an observable order
+        return ("dict",) + tuple(items)
     if isinstance(obj, (types.FunctionType, types.BuiltinFunctionType, types.MethodType, type)):
         return ("fn", getattr(obj, "__module__", ""), getattr(obj, "__qualname__", repr(obj)))
     if key in _memo:
@@ -76,7 +78,7 @@ def snapshot(obj, rng=True, skip=(), _memo=None, _depth=0):
         for k in sorted(vars(obj)):
             if k in skip:
                 continue
-            attrs.append((k, snapshot(vars(obj)[k], rng, skip, _memo, _depth + 1)))
+            attrs.append((k, snapshot(vars(obj)[k], rng, skip, _memo, _depth + 1, _ordered=k.startswith("arm_to_"))))
         return ("obj", name) + tuple(attrs)
     if hasattr(obj, "__getstate__"):
         try:
